@@ -50,9 +50,15 @@ CHECKS = {
  "C15": ("runtime monitor: truth-by-construction oracle (perturbation / permutation / rotation positives; typed, structural and displacement negatives) + symmetry check",
          "For base geometries of all eight types, derived partners with a known truth value are compared in both directions: true for <0.9 tol perturbations combined with documented reorderings and ring rotations; false for other types, inserted/deleted members (incl. empty ones) or vertices, reversed line strings, single-vertex displacements > tol; g.Similar(h) must equal h.Similar(g) always.",
          "Members separated by >> tol, closed rings with a unique anchor vertex (domain restrictions stated by the property).", "§4 C15"),
+ "C19": ("runtime monitor: harness graph model + Dijkstra as oracle over generated link networks",
+         "Networks of 2-300 nodes (trees, grids with diagonals, two components, cheap-detour and fast-ring configurations; bendy links, speeds over two decades, random insertion order/orientation) are queried for Distance and Time; start/end nodes must be the true nearest nodes, returned links must chain from start to end node, totals must equal the sums over the returned links, the chosen cost must equal the harness Dijkstra optimum (1e-9), disconnected pairs give an empty route.",
+         "No self loops or parallel links; queries with an ambiguous nearest node are skipped; returned links are identified by slice identity.", "§4 C19"),
  "C20": ("runtime monitor: pairwise transformer agreement between harness-printed PROJ.4 and WKT spellings of one system; registry/Equal/nil-transformer laws; .prj read-back",
          "Generated systems (5 WKT projection names + geographic; spheroid by a,1/f; TOWGS84 3/7/none; metre/foot/US foot; ESRI and OGC parameter names) are printed both ways by the harness and must transform identically (1e-6 m forward, 1e-11 deg inverse, also in mixed pairs); registered names must behave as their published definitions; same text parsed twice is Equal; NewTransform is nil exactly when Equal(…,3) for identical / 1-ulp / 1e-9 / name / units / datum-parameter-count variants, without panicking; (*shp.Decoder).SR() equals proj.Parse of the .prj text.",
          "Definitions without TOWGS84 are compared from the same-spheroid geographic system spelled both ways (WKT DATUM without TOWGS84 and +a +rf without +datum are different datum statements).", "§4 C20"),
+ "C16": ("runtime monitor: record-list reference model; bitwise geometry comparison; attribute rules; reflect-built archetype structs for column-order coverage",
+         "Files of 0-300 records of every supported geometry kind with 1-6 attribute columns in random order are written through both encoder APIs (archetype structs built with reflect.StructOf, shp tags and bare mixed-case names; field lists) and read back through DecodeRow (differently cased names/tags) and DecodeRowFields; count, order, documented geometry images with bitwise coordinates, ints, floats to 10 decimals and strings must equal the records written, Error() must be nil.",
+         "go-shp's trimming of leading blanks is a recorded known finding (key string:edge-blanks-trimmed); nil geometries are outside the property and not generated.", "§4 C16"),
  "C17": ("runtime monitor: independent OGC WKT recursive-descent parser as oracle, bitwise comparison",
          "The text produced for every generated geometry of the five supported types must be accepted by an independently written strict OGC tagged-text parser and parse to a bitwise-identical geometry; MultiPoint, GeometryCollection and *Bounds must be rejected with an error.",
          "Trusts the harness's 200-line WKT parser and strconv.ParseFloat; members with >= 1 vertex only (as the property states).", "§4 C17"),
